@@ -208,6 +208,7 @@ pub struct PathStroker {
     first_outer_pt_index_in_contour: usize,
     segment_count: i32,
     prev_is_line: bool,
+    first_is_line: bool,
 
     capper: CapProc,
     joiner: JoinProc,
@@ -252,6 +253,7 @@ impl PathStroker {
             first_outer_pt_index_in_contour: 0,
             segment_count: -1,
             prev_is_line: false,
+            first_is_line: false,
 
             capper: butt_capper,
             joiner: miter_joiner,
@@ -355,6 +357,7 @@ impl PathStroker {
         self.first_outer_pt_index_in_contour = 0;
         self.segment_count = -1;
         self.prev_is_line = false;
+        self.first_is_line = false;
 
         self.capper = cap_factory(line_cap);
         self.joiner = join_factory(line_join);
@@ -882,7 +885,9 @@ impl PathStroker {
                 self.outer.reverse_path_to(&self.inner);
 
                 // cap the start
-                let other_path = if self.prev_is_line {
+                // The path we are appending to ends with the reversed offset of the FIRST segment:
+                // the capper may move its end point only when that segment is a line.
+                let other_path = if self.first_is_line {
                     Some(&self.inner)
                 } else {
                     None
@@ -943,6 +948,7 @@ impl PathStroker {
         }
 
         if self.segment_count == 0 {
+            self.first_is_line = curr_is_line;
             self.first_normal = *normal;
             self.first_unit_normal = *unit_normal;
             self.first_outer_pt = Point::from_xy(prev_x + normal.x, prev_y + normal.y);
